@@ -5,6 +5,7 @@ package main
 
 import (
 	"bufio"
+	"crypto/sha256"
 	"encoding/binary"
 	"encoding/json"
 	"flag"
@@ -294,6 +295,47 @@ func (d *ledgerDriver) call(e BEvent, args map[string]interface{}) error {
 		p.TxHash = txHashOf(e.str("txh"))
 		args["nonce"], args["txh"] = p.LzNonce, e.str("txh")
 		return k.DelegationKeeper.UndelegateFrom(ctx, p)
+	case "MsgDelegate", "MsgUndelegate":
+		// the native-token message path (x/delegation msg server): ValidateBasic, then the handler on a
+		// context carrying the tx bytes; the signer's account sequence is the nonce of every entry
+		s := e.str("s")
+		var items []struct {
+			O string          `json:"o"`
+			X json.RawMessage `json:"x"`
+		}
+		must(json.Unmarshal(e.A["items"], &items))
+		from := sdk.AccAddress(w.St(s).Bytes())
+		var kvs []delegationtypes.KeyValue
+		var outItems []map[string]interface{}
+		for _, it := range items {
+			xb, _ := ParseNum(it.X)
+			amt := sdkmath.NewIntFromBigInt(new(big.Int).Mul(xb, d.scale))
+			kvs = append(kvs, delegationtypes.KeyValue{Key: w.Op(it.O).String(), Value: &delegationtypes.ValueField{Amount: amt}})
+			outItems = append(outItems, map[string]interface{}{"o": it.O, "x": NI(amt)})
+		}
+		args["s"], args["items"] = s, outItems
+		if e.Ev == "MsgDelegate" {
+			msg := delegationtypes.NewMsgDelegation(assetstypes.ExocoreAssetID, from.String(), kvs)
+			if err := msg.ValidateBasic(); err != nil {
+				return err
+			}
+			_, err := k.DelegationKeeper.DelegateAssetToOperator(sdk.WrapSDKContext(ctx.WithTxBytes([]byte("tx:del"))), msg)
+			return err
+		}
+		nonce := e.big("nonce").Uint64()
+		t := e.str("txh")
+		args["nonce"], args["txh"] = nonce, t
+		acc := k.AccountKeeper.GetAccount(ctx, from)
+		must(acc.SetSequence(nonce))
+		k.AccountKeeper.SetAccount(ctx, acc)
+		txBytes := []byte("tx:" + t)
+		txHashNames(txBytes, nonce, t)
+		msg := delegationtypes.NewMsgUndelegation(assetstypes.ExocoreAssetID, from.String(), kvs)
+		if err := msg.ValidateBasic(); err != nil {
+			return err
+		}
+		_, err := k.DelegationKeeper.UndelegateAssetFromOperator(sdk.WrapSDKContext(ctx.WithTxBytes(txBytes)), msg)
+		return err
 	case "Associate":
 		s, o := e.str("s"), e.str("o")
 		args["s"], args["o"] = s, o
@@ -423,6 +465,14 @@ func (d *ledgerDriver) findRecordKey(o string, nonce uint64, txh string) []byte 
 // projection
 
 var txhNames = map[string]string{}
+
+// txHashNames registers the hash the delegation msg server derives for (tx bytes, nonce) under the model name t
+// (msg_server.go: sha256(fmt.Sprintf("%s-%d", sha256(txBytes), nonce)))
+func txHashNames(txBytes []byte, nonce uint64, t string) {
+	h1 := sha256.Sum256(txBytes)
+	h2 := sha256.Sum256([]byte(fmt.Sprintf("%s-%d", h1, nonce)))
+	txhNames[common.Hash(h2).String()] = t
+}
 
 func txhModel(h string) string {
 	if n, ok := txhNames[h]; ok {
